@@ -7,7 +7,7 @@ KINDS = ("pos",)
 
 def plan(tier):
     if tier == "quick":
-        return [("layout", 5), ("altspell", 4)]
+        return [("layout", 5), ("altspell", 5)]
     return [("layout", 7), ("altspell", 6)]
 
 
